@@ -127,6 +127,11 @@ def handle : List String → Option (List String)
         | some b => list? Hex.decode "," b
         | none => some []
       let t0 : Target := { cur := 0, now := cfg.now, ks := mkKS pre, bad := fun k => bad.contains k }
+      -- cut=<k>: a first attempt replayed the first k entries and died; the answers below are those of the RERUN —
+      -- a fresh worker (no remembered state, connection in DB 0) on the target the first attempt left
+      let t0 : Target := match (kv toks "cut").bind String.toNat? with
+        | some k => { workerTarget t0 (runWorker (mode == "bisync") pol cfg 0 none t0 (ents.take k)) with cur := 0 }
+        | none => t0
       let ls := runWorker (mode == "bisync") pol cfg 0 none t0 ents
       let tEnd := workerTarget t0 ls
       let body := (ls.zipIdx).flatMap (fun p =>
